@@ -5,18 +5,24 @@ open Gen.Split Model.Split
 /-- boolean form of "the extracted table splits wherever SQL clause order demands it" -/
 def tableSoundB : Bool :=
   Kind.all.all fun a => Kind.all.all fun b => [true, false].all fun g =>
-    !(mustSplit a b g) || !(recorded b) ||
+    !(mustSplit a b g) || knownGap a b || !(recorded b) ||
       (if splitsOnAnything a then true else (splitSet a g).contains b)
 
 theorem kind_mem_all (k : Kind) : k ∈ Kind.all := by cases k <;> decide
 
+/-- the full statement, without the excluded pairs -/
+def tableSoundFullB : Bool :=
+  Kind.all.all fun a => Kind.all.all fun b => [true, false].all fun g =>
+    !(mustSplit a b g) || !(recorded b) ||
+      (if splitsOnAnything a then true else (splitSet a g).contains b)
+
 theorem table_sound_of_B (h : tableSoundB = true) (a b : Kind) (g : Bool)
-    (hm : mustSplit a b g = true) (hr : recorded b = true) :
+    (hm : mustSplit a b g = true) (hk : knownGap a b = false) (hr : recorded b = true) :
     splitsOnAnything a = true ∨ b ∈ splitSet a g := by
   have h1 := List.all_eq_true.mp h a (kind_mem_all a)
   have h2 := List.all_eq_true.mp h1 b (kind_mem_all b)
   have h3 := List.all_eq_true.mp h2 g (by cases g <;> simp)
-  simp only [hm, hr, Bool.not_true, Bool.false_or] at h3
+  simp only [hm, hk, hr, Bool.not_true, Bool.false_or] at h3
   by_cases hs : splitsOnAnything a = true
   · exact Or.inl hs
   · simp only [hs] at h3
